@@ -118,6 +118,9 @@ pub fn judge(ctx: &Ctx, p: P, v: &Visit) {
             }
         }
         P::C03 => {
+            if t.unwalkable(v.ops) {
+                return;
+            }
             let img = ser(v.live);
             ctx.distinct(fnv(&img));
             let fail = |why: String| {
@@ -140,10 +143,17 @@ pub fn judge(ctx: &Ctx, p: P, v: &Visit) {
                 return;
             }
             // exactly the entries that were added, in order, with the right type codes and sizes
-            let want = t.reference(v.ctor, v.ops).ents;
-            if ents != want {
+            let r = t.reference(v.ctor, v.ops);
+            let want = &r.ents;
+            if &ents != want {
                 let i = ents.iter().zip(want.iter()).position(|(a, b)| a != b).unwrap_or(ents.len().min(want.len()));
                 return fail(format!("entry #{}: walk finds {:?}, the history added {:?} ({} walked / {} added)", i, ents.get(i), want.get(i), ents.len(), want.len()));
+            }
+            // per-entry summarising fields must describe what was added, not merely be self-consistent
+            let (got, exp) = (t.summary(&img, &ents), t.summary(&r.image, want));
+            if got != exp {
+                let i = got.iter().zip(exp.iter()).position(|(a, b)| a != b).unwrap_or(got.len().min(exp.len()));
+                return fail(format!("summarising field #{} (counts / array offsets / string lengths, in body order) is {:?} but the history added {:?}", i, got.get(i), exp.get(i)));
             }
         }
         P::C04 => {
@@ -153,7 +163,7 @@ pub fn judge(ctx: &Ctx, p: P, v: &Visit) {
             let img = ser(v.live);
             ctx.distinct(fnv(&img));
             let want = t.reference(v.ctor, v.ops).image;
-            if img != want {
+            if !tables::eq_judged(t, v.ops, &img, &want) {
                 let key = quirk_of(t, v.ctor, v.ops, &img).map(|q| format!("{}:{}", t.name(), q)).unwrap_or_else(|| {
                     // attribute to the entry containing the first difference in the body (Length/checksum differences follow from it)
                     let d = if img.len() > 36 && want.len() > 36 { first_diff(&img[36..], &want[36..]).map(|x| x + 36) } else { None };
